@@ -198,6 +198,12 @@ def _case(draw):
                          "kids": [], "void": False}]}
         c["template"] = tpl + draw(st.sampled_from([[inc], [rep], [inc, rep], [rep, inc]])) + draw(talgen.nodes(0, {}))
         c["include"] = True
+    if mode == "restore" and draw(st.integers(0, 3)) == 0:
+        # re-entrance: inside a loop and a local define, a context callable expands this very template once more
+        c["template"] = c["template"] + [{"t": "el", "tag": "ul", "attrs": [], "tal": {"repeat": "rit lst2", "define": "rv s1"}, "metal": {}, "void": False,
+                                          "kids": [{"t": "el", "tag": "li", "attrs": [], "tal": {"content": "recur"}, "metal": {},
+                                                    "kids": [{"t": "text", "s": "x"}], "void": False}]}]
+        c["recur"] = True
     if mode == "restore" and draw(st.booleans()):
         # loops over things that are not sequences: iterators and generators (empty, non-empty, already exhausted) and an
         # iterable object without a length; inside an element with a local define, alone, and nested in a list loop
@@ -391,6 +397,20 @@ def _check_restore(case, ctx):
     if case.get("include"):
         c.addGlobal("subtpl", simpleTAL.compileHTMLTemplate(
             '<b tal:content="s1">x</b><i tal:define="q s2" tal:content="q">y</i><u tal:repeat="r lst2" tal:content="r">z</u>'))
+    if case.get("recur"):
+        # a context callable that expands the SAME compiled template again (recursive rendering of a tree, one level deep)
+        depth = [0]
+
+        def recur():
+            if depth[0] >= 1:
+                return "leaf"
+            depth[0] += 1
+            try:
+                tpl.expand(c17.make_context(case["ctx"]), io.StringIO())
+            finally:
+                depth[0] -= 1
+            return "nested"
+        c.addGlobal("recur", recur)
     if case.get("iters"):
         class _Iterable:
             def __init__(self, vals):
@@ -415,7 +435,7 @@ def _check_restore(case, ctx):
     if rep or hasdef:
         ctx.nontriv()
     ctx.label("restore", "restore-repeats:%d" % min(rep, 3), "restore-define:%s" % hasdef, "restore-include:%s" % bool(case.get("include")),
-              "restore-iterator-loops:%s" % bool(case.get("iters")))
+              "restore-iterator-loops:%s" % bool(case.get("iters")), "restore-re-entrant:%s" % bool(case.get("recur")))
     ctx.sample({"template": text[:500]}, cls="restore")
     fails = []
     if c.locals != before_locals:
